@@ -114,7 +114,7 @@ def hyperbolic_artists(tier, rng, rep):
                             if not isinstance(col, PolyCollection):
                                 rep.fail("klein_polygon_artist", type(col).__name__, inp); return
                             pv = col.get_paths()[0].vertices
-                            if np.max(np.abs(pv[:m] - kt)) > 1e-9:
+                            if not np.all(np.abs(pv[:m] - kt) <= 1e-9):
                                 rep.fail("klein_polygon_at_model_coordinates", "", inp); return
                         else:
                             patch = ax.patches[-1]
@@ -158,7 +158,7 @@ def hyperbolic_artists(tier, rng, rep):
                         dr.draw_point(h.Point(k[1].copy(), model="klein"))
                         line = ax.lines[-1]
                         xy = np.array(line.get_xydata())[0]
-                        if np.max(np.abs(xy - vm[1])) > 1e-9 * (1 + np.max(np.abs(vm[1]))):
+                        if not np.all(np.abs(xy - vm[1]) <= 1e-9 * (1 + np.max(np.abs(vm[1])))):
                             rep.fail("point_at_model_coordinates", f"{xy} vs {vm[1]}", inp); return
                         # a segment / geodesic arc
                         if model != "klein":
@@ -171,10 +171,10 @@ def hyperbolic_artists(tier, rng, rep):
                             a_, b_ = vm[1], vm[2]
                             if isinstance(art, Arc):
                                 c = np.array(art.center); r = art.width / 2
-                                if abs(art.width - art.height) > 1e-12 or abs(np.linalg.norm(a_ - c) - r) > 1e-6 * (1 + r) or abs(np.linalg.norm(b_ - c) - r) > 1e-6 * (1 + r):
+                                if not (abs(art.width - art.height) <= 1e-12) or not (abs(np.linalg.norm(a_ - c) - r) <= 1e-6 * (1 + r)) or not (abs(np.linalg.norm(b_ - c) - r) <= 1e-6 * (1 + r)):
                                     rep.fail("arc_through_endpoints", f"centre {c} radius {r}", inp); return
                                 orth = (c @ c - 1 - r * r) if model == "poincare" else c[1]
-                                if abs(orth) > 1e-6 * (1 + r * r):
+                                if not (abs(orth) <= 1e-6 * (1 + r * r)):
                                     rep.fail("arc_orthogonal_to_boundary", f"{orth}", inp); return
                                 t1, t2 = np.deg2rad(art.theta1), np.deg2rad(art.theta2)
                                 if t2 < t1:
@@ -246,15 +246,15 @@ def projective_artists(tier, rng, rep):
                     if len(paths) != 2:
                         rep.fail("one_path_per_polygon", f"{len(paths)}", inp); return
                     for i in range(2):
-                        if np.max(np.abs(paths[i].vertices[:m] - want[i])) > 1e-9 * (1 + np.max(np.abs(want))):
+                        if not np.all(np.abs(paths[i].vertices[:m] - want[i]) <= 1e-9 * (1 + np.max(np.abs(want)))):
                             rep.fail("projective_polygon_at_chart_coordinates", f"polygon {i}", inp); return
                     dr.draw_point(pr.Point(X[0].copy()))
                     xy = np.array(ax.lines[-1].get_xydata())
-                    if np.max(np.abs(xy - want[0])) > 1e-9 * (1 + np.max(np.abs(want))):
+                    if not np.all(np.abs(xy - want[0]) <= 1e-9 * (1 + np.max(np.abs(want)))):
                         rep.fail("projective_points_at_chart_coordinates", "", inp); return
                     dr.draw_proj_segment(pr.PointPair(X[0, 0].copy(), X[0, 1].copy()))
                     sv = ax.collections[-1].get_segments()[0]
-                    if np.max(np.abs(np.array(sv) - want[0, :2])) > 1e-9 * (1 + np.max(np.abs(want))):
+                    if not np.all(np.abs(np.array(sv) - want[0, :2]) <= 1e-9 * (1 + np.max(np.abs(want)))):
                         rep.fail("projective_segment_at_chart_coordinates", "", inp); return
                 finally:
                     plt.close(fig)
